@@ -5,6 +5,7 @@ import Amgcl.Model.SolverPreonly
 import Amgcl.Proofs.SolverGMRES
 import Amgcl.Proofs.SolverFGMRES
 import Amgcl.Proofs.SolverLGMRES
+import Amgcl.Proofs.SolverIDRsTruth
 import Mathlib.Algebra.Order.Field.Rat
 /-!
 # C01 — a reported convergence is truthful: residual, iteration count, solution  (CG, BiCGStab, Richardson, preonly)
@@ -480,6 +481,47 @@ theorem gmres_stops_only_when_done (prm : GMRES.Params K) (ip : Vec K → Vec K 
   exact hs
 
 end gmresFamily
+
+/-! ### IDR(s)
+
+The residual `r` of IDR(s) is updated recursively (`r −= β·G[k]` with `x += β·U[k]`; `r −= ω·t` with `x += ω·v`,
+`t = A v`) and recomputed only with `replacement`; truthfulness therefore needs the invariant `G[i] = A·U[i]` for the
+stored vectors (maintained by the bi-orthogonalisation, which applies the same combination to `G[k]` and `U[k]`)
+and linearity of `A` — for ARBITRARY values of all coefficients (`c`, `β`, `ω`, `α`): no breakdown hypothesis, any
+shadow space `P`, any function `Prec`.  With `smoothing` the reported norm is that of the smoothed residual `r_s` and
+the returned vector is `x_s`; `r_s ← r_s − γ(r_s − r)`, `x_s ← x_s − γ(x_s − x)` is again a paired update. -/
+section idrs
+variable {K : Type} [Field K] [DecidableEq K] [LT K] [DecidableLT K]
+
+/-- **IDR(s) without smoothing reports the true residual of the `x` it returns** (`replacement` on or off).
+(`_partial` only in the sense of the work-package plan: the smoothing case is `idrs_truthful_smoothing` below.) -/
+theorem idrs_truthful_partial (prm : IDRs.Params K) (hsm : prm.smoothing = false) (ip : Vec K → Vec K → K)
+    (sqrt : K → K) (eps : K) (A : CRS K) (hA : A.WF) (hsq : A.nrows = A.ncols) (Prec : Vec K → Vec K)
+    (hP : ∀ v, (Prec v).size = A.ncols) (Pv : FArr (Vec K)) (ws : IDRs.Work K) (f x0 : Vec K)
+    (it : Nat) (res : K) (x : Vec K) (w : IDRs.Work K)
+    (h : IDRs.solve prm ip sqrt eps A Prec Pv ws f x0 = .ok (it, res, x, w)) :
+    res = reported (prologueA prm.nsSearch ip sqrt eps f) (nrmA ip sqrt (residual f A x)) :=
+  IDRs.solve_truthful_partial prm hsm ip sqrt eps A hA hsq Prec hP Pv ws f x0 it res x w h
+
+/-- **IDR(s) reports the true residual of the `x` it returns, with or without smoothing** (initial guess of the
+system's length). -/
+theorem idrs_truthful_smoothing (prm : IDRs.Params K) (ip : Vec K → Vec K → K)
+    (sqrt : K → K) (eps : K) (A : CRS K) (hA : A.WF) (hsq : A.nrows = A.ncols) (Prec : Vec K → Vec K)
+    (hP : ∀ v, (Prec v).size = A.ncols) (Pv : FArr (Vec K)) (ws : IDRs.Work K) (f x0 : Vec K)
+    (hx : x0.size = A.ncols) (it : Nat) (res : K) (x : Vec K) (w : IDRs.Work K)
+    (h : IDRs.solve prm ip sqrt eps A Prec Pv ws f x0 = .ok (it, res, x, w)) :
+    res = reported (prologueA prm.nsSearch ip sqrt eps f) (nrmA ip sqrt (residual f A x)) :=
+  IDRs.solve_truthful_smoothing prm ip sqrt eps A hA hsq Prec hP Pv ws f x0 hx it res x w h
+
+/-- the iteration count of IDR(s) never exceeds `maxiter` (no hypothesis on `A`, `Prec`, `P`, the work arrays).
+Note the code does not count the step in which it converges: `if (res_norm <= eps || ++iter >= maxiter) break;` -/
+theorem idrs_iter_le_maxiter (prm : IDRs.Params K) (ip : Vec K → Vec K → K) (sqrt : K → K) (eps : K) (A : CRS K)
+    (Prec : Vec K → Vec K) (Pv : FArr (Vec K)) (ws : IDRs.Work K) (f x0 : Vec K) (it : Nat) (res : K) (x : Vec K)
+    (w : IDRs.Work K) (h : IDRs.solve prm ip sqrt eps A Prec Pv ws f x0 = .ok (it, res, x, w)) :
+    it ≤ prm.maxiter :=
+  IDRs.solve_iter_le prm ip sqrt eps A Prec Pv ws f x0 it res x w h
+
+end idrs
 
 section gmresOrdered
 variable {K : Type} [Field K] [LinearOrder K] [IsStrictOrderedRing K]
